@@ -1,17 +1,35 @@
 import NbioVerif.Lemmas.C09Run
+import NbioVerif.Lemmas.C09Delim
 /-! Framing invariant over whole handler programs: Flush at invariant level, the body-phase run,
 flushResponse, and the start state. -/
 namespace Resp
 
+/-- Flush without its close-delimiting decision -/
+def flushCore (g : Cfg) (r : R) : R := flushBodyBuf g (flushBuf g (eoncodeHead g r))
+
 theorem flushOp_unfold (g : Cfg) (r : R) (hp : Pre r) :
-    flushOp g r = flushBodyBuf g (flushBuf g (eoncodeHead g r)) := by
+    flushOp g r = flushBodyBuf g (flushBuf g (eoncodeHead g (markDelim r))) := by
   unfold flushOp; rw [prelude_id g r hp]
 
-theorem flushOp_spec (g : Cfg) (hg : NoFail g) (v : Option Nat) (r : R) (hd : Option Bytes) (B : Bytes)
+/-- `closeDelim` is not part of the invariant -/
+theorem winv_markDelim (v : Option Nat) (r : R) (hd B) (h : WInv v r hd B) : WInv v (markDelim r) hd B := by
+  unfold markDelim
+  split
+  · refine ⟨h.pre, ?_, ?_⟩
+    · intro hc
+      have := h.ch hc
+      exact ⟨⟨this.bytes, this.henc, this.nobuf, this.nowire⟩, this.nobody⟩
+    · intro hc
+      obtain ⟨hi, hv⟩ := h.idn hc
+      refine ⟨⟨⟨hi.bytes, hi.henc, hi.nobuf, hi.nowire⟩, hi.one⟩, ?_⟩
+      rw [← hv]; exact verdict_eq _ _ rfl rfl
+  · exact h
+
+theorem flushCore_spec (g : Cfg) (hg : NoFail g) (v : Option Nat) (r : R) (hd : Option Bytes) (B : Bytes)
     (h : WInv v r hd B) :
-    WInv v (flushOp g r) (hdAfter g r hd) B ∧ (flushOp g r).chunked = r.chunked ∧
-      (flushOp g r).header = r.header := by
-  rw [flushOp_unfold g r h.pre]
+    WInv v (flushCore g r) (hdAfter g r hd) B ∧ (flushCore g r).chunked = r.chunked ∧
+      (flushCore g r).header = r.header := by
+  unfold flushCore
   have hbase : Base r hd B := by
     cases hc : r.chunked with
     | true => exact (h.ch hc).toBase
@@ -45,6 +63,15 @@ theorem flushOp_spec (g : Cfg) (hg : NoFail g) (v : Option Nat) (r : R) (hd : Op
       | false => exact (hi.one hcl).1 hre
       | true => rw [eoncodeHead_enc g r hre] at hne1; exact (hi.one hcl).2 hne1
     · rw [← hv]; exact verdict_eq _ _ (by simp) (by simp)
+
+theorem flushOp_spec (g : Cfg) (hg : NoFail g) (v : Option Nat) (r : R) (hd : Option Bytes) (B : Bytes)
+    (h : WInv v r hd B) :
+    WInv v (flushOp g r) (hdAfter g (markDelim r) hd) B ∧ (flushOp g r).chunked = r.chunked ∧
+      (flushOp g r).header = r.header := by
+  rw [flushOp_unfold g r h.pre]
+  obtain ⟨a, b, c⟩ := flushCore_spec g hg v (markDelim r) hd B (winv_markDelim v r hd B h)
+  unfold flushCore at a b c
+  exact ⟨a, by rw [b]; simp, by rw [c]; simp⟩
 
 /-! ### the body phase of a handler -/
 
@@ -202,14 +229,16 @@ theorem runB_spec (g : Cfg) (hg : NoFail g) (v : Option Nat) (ops : List BOp) (h
         · rw [flushOp_unfold g r h.pre]; simp [hl.1]
         · rw [flushOp_unfold g r h.pre]; simp [hl.2.1]
         · rw [f2]; exact hl.2.2.1
-      obtain ⟨hd', i1, i2, i3, i4, i5⟩ := ih hok' hK' _ _ _ f1 hl' (headOf_after g K sc st ch _ hd hl hh)
+      have hlm : Line K sc st ch (markDelim r) :=
+        ⟨by simp [hl.1], by simp [hl.2.1], by simp [hl.2.2.1], by simp; exact hl.2.2.2⟩
+      obtain ⟨hd', i1, i2, i3, i4, i5⟩ := ih hok' hK' _ _ _ f1 hl' (headOf_after g K sc st ch _ hd hlm hh)
       refine ⟨hd', by rw [f2] at i1; exact i1, ?_, by rw [i3, f2], i4, i5⟩
       intro hs
       have hre : r.headEncoded = true := by
         cases hc : r.chunked with
         | true => rw [(h.ch hc).henc]; exact hs
         | false => rw [(h.idn hc).1.henc]; exact hs
-      have e1 : hdAfter g r hd = hd := by unfold hdAfter; simp [hre]
+      have e1 : hdAfter g (markDelim r) hd = hd := by unfold hdAfter; simp [hre]
       rw [e1] at i2
       exact i2 hs
     | setH k val =>
@@ -237,7 +266,7 @@ theorem finish_spec (g : Cfg) (hg : NoFail g) (v : Option Nat) (r : R) (hd : Opt
     (h : WInv v r hd B) :
     (finish g r).1.wire.flatten =
         (hdAfter g r hd).getD [] ++ B ++ (if r.chunked then lastChunk (eoncodeHead g r) else []) ∧
-      (finish g r).2 = g.reqClose ∧ (hdAfter g r hd).isSome = true := by
+      (finish g r).2 = (g.reqClose || r.closeDelim) ∧ (hdAfter g r hd).isSome = true := by
   unfold finish
   rw [prelude_id g r h.pre]
   have hbase : Base r hd B := by
